@@ -208,6 +208,14 @@ impl ParentReadyTracker {
     }
 }
 
+#[cfg(feature = "verif-hooks")]
+impl ParentReadyTracker {
+    /// Lowest tracked slot and number of tracked slots (verification hook).
+    pub(super) fn verif_retained(&self) -> (Option<Slot>, usize) {
+        (self.states.keys().min().copied(), self.states.len())
+    }
+}
+
 #[cfg(test)]
 mod tests {
     use super::*;
